@@ -13,6 +13,7 @@ import WellenModel.Model.Serde
 import WellenModel.Model.VcdHeaderDump
 import WellenModel.Model.Ghw
 import WellenModel.Model.GhwSpec
+import WellenModel.Model.FstFile
 /-
 `wmdriver`: reads one request per line on stdin, answers `<model reply>\t<spec reply>` per line.
 Imports only the import-free `Model` modules (the same definitions the theorems are about).
@@ -519,9 +520,12 @@ def handle (line : String) : String × String :=
   | ["serdeh", hex] => handleSerde "serdeh" hex
   | ["serdes", hex] => handleSerde "serdes" hex
   | ["serdert", _] => ("same", "same")
-  | ["pairhex", design, _, _] =>
+  | ["fstfile", design, unit, _] =>
+    (Wellen.FstFile.model design unit, Wellen.GhwSpec.specFst design unit)
+  | "pairhex" :: design :: files =>
     let o := Wellen.GhwSpec.specObserve design
-    (o ++ "#" ++ o, if o = "-" then "-" else o ++ "#" ++ o)
+    let r := "#".intercalate (files.map fun _ => o)
+    (r, if o = "-" then "-" else r)
   | ["ghw", design, hex] =>
     match hexBytes? hex with
     | some bs => (Wellen.Ghw.load bs, Wellen.GhwSpec.spec design)
